@@ -90,3 +90,86 @@ def run_results(plan, seed=None, path=None, debug=False):
     tr = {"scn": scn, "ev": w.trace, "moves": w.moves, "seed": seed, "driver": ["results", plan["id"], seed, path],
           "conformance": ({"skipped": skipped} if skipped else {"diverged": diverged}), "sync": sync, "final": final}
     return tr
+
+
+def cluster_scripts():
+    H = lambda host, *ops: {"host": host, "ops": list(ops)}
+    return [
+        {"id": "k1", "scripts": [H("n1", "loadp", "update", "demote"), H("n2", "loadp", "update", "demote"), H("n1", "load", "promote", "demote")]},
+        {"id": "k2", "scripts": [H("n1", "load", "update"), H("n2", "loadp", "jsonly", "demote")]},
+        {"id": "k3", "scripts": [H("n1", "loadp", "jsonly", "update", "demote"), H("n2", "load", "update"), H("n2", "loadp", "demote")]},
+        {"id": "k4", "scripts": [H("n1", "loadp", "cancel", "demote"), H("n2", "load", "cancel"), H("n1", "loadp", "demote")]},
+    ]
+
+
+def cluster_scn():
+    from harness import families
+    return families.scn("AB", maxnodes=0)
+
+
+def run_cluster(plan, seed=None, path=None, debug=False):
+    """Handles running scripts of Cluster API operations, one cluster-lock hold per operation."""
+    from harness import scenario
+    base = mkbase()
+    scn = cluster_scn()
+    w = World(scn, base, debug=debug)
+    out = w.out
+    os.makedirs(out, exist_ok=True)
+    cfgfile = scenario.write_config(scn, base)
+    diverged = None
+    try:
+        p = w.spawn(kind="api", module="harness.drivers.cluster", func="creator", args={"out": out, "cfgfile": cfgfile},
+                    label="creator", host="login")
+        while p.alive:
+            w.do(("step", p.pid))
+        procs = [w.spawn(kind="api", module="harness.drivers.cluster", func="handle", host=s["host"],
+                         args={"out": out, "ops": s["ops"]}, label="handle") for s in plan["scripts"]]
+        sync = len(w.trace)
+        if path is not None:
+            for k, lbl in enumerate(path):
+                q = procs[lbl[1] - 1]
+                if lbl[0] == "Skip":
+                    continue
+                if not q.alive:
+                    diverged = {"step": k, "label": lbl, "why": "process ended"}
+                    break
+                if lbl[0] == "Blocked":
+                    # the operation never gets the lock: it waits, and times out when nothing else can move
+                    if q.req["op"] == "lock_try":
+                        w.do(("step", q.pid))
+                    if q.req["op"] != "lock_blocked":
+                        diverged = {"step": k, "label": lbl, "why": f"model says blocked, process parked at {q.req['op']}"}
+                        break
+                    w.do(("locktimeout", q.pid))
+                else:
+                    if not w._step_enabled(q):
+                        diverged = {"step": k, "label": lbl, "why": "process cannot move"}
+                        break
+                    w.do(("step", q.pid))
+                    if q.alive and q.req["op"] == "lock_blocked":
+                        diverged = {"step": k, "label": lbl, "why": "operation blocked on the lock, model says it runs"}
+                        break
+            if diverged is None and any(q.alive for q in procs):
+                diverged = {"step": len(path), "label": None, "why": "model behaviour ended, processes still alive"}
+        if path is None or diverged:
+            w.run(random_chooser(random.Random(seed or 0)))
+        w.ev(e="end", recoveries=0, full=False)
+    finally:
+        w.close()
+        shutil.rmtree(base, ignore_errors=True)
+    return {"scn": scn, "ev": w.trace, "moves": w.moves, "seed": seed, "driver": ["cluster", plan["id"], seed, path],
+            "conformance": {"diverged": diverged}, "sync": sync}
+
+
+def compare_cops(model_events, tr):
+    """cop events predicted by ClusterStore vs observed (pids shifted by the creator process)."""
+    real = [[e["pid"] - 1, e["op"], e["hcver"], e["hjver"], e["dcver"], e["djver"], e["exc"], e["changed"], e["ok"], e["before"]]
+            for e in tr["ev"][tr["sync"]:] if e["e"] == "cop"]
+    model = [[e["pid"], e["op"], e["hcver"] if e["loaded"] else -1, e["hjver"] if e["loaded"] else -1, e["dcver"], e["djver"],
+              e["exc"], e["changed"], e["ok"], e["before"]] for e in model_events if e["e"] == "cop"]
+    for i, (a, b) in enumerate(zip(model, real)):
+        if a != b:
+            return {"index": i, "model": a, "real": b}
+    if len(model) != len(real):
+        return {"index": min(len(model), len(real)), "model": len(model), "real": len(real)}
+    return None
